@@ -132,7 +132,15 @@ func (x *Exec) ginvStep(st *State, fi int, site ssa.Instruction, anchor string, 
 	k(st, body())
 }
 
-func (x *Exec) quickSat(st *State) bool { return true }
+// quickSat: is the path condition still satisfiable? Used only by functions
+// whose contract says `prune` (large type switches restricted by a
+// precondition): branches the solver refutes within a second are not explored.
+func (x *Exec) quickSat(st *State) bool {
+	ob := &Obligation{PC: st.pc, Expect: "sat"}
+	q := x.query(ob, false)
+	r := runOne(solverSpecs[0], "(set-option :smt.mbqi false)\n"+q, 2)
+	return r.Status != "unsat"
+}
 
 // closedWorld: the shared fields of a protocol structure are touched only by
 // the structure's own methods and its constructor New<Struct> (a syntactic scan
